@@ -41,12 +41,29 @@ def _fit(algo, a):
     return out
 
 
+def _reparam(algo, a, final):
+    """the estimator was constructed with other parameters (a['constructed']) and is given the final ones before the fit, through
+    set_params or by plain attribute assignment: get_params() then reports the final ones, and the fit must honour them"""
+    if a.get('reparam') == 'set_params':
+        algo.set_params(final)
+    else:
+        for k, v in final.items():
+            setattr(algo, k, v)
+    return algo
+
+
 def diffusion(a):
-    return _fit(Diffusion(n_iter=a['n_iter'], damping_factor=a['damping']), a)
+    final = dict(n_iter=a['n_iter'], damping_factor=a['damping'])
+    if a.get('constructed'):
+        return _fit(_reparam(Diffusion(**a['constructed']), a, final), a)
+    return _fit(Diffusion(**final), a)
 
 
 def dirichlet(a):
-    return _fit(Dirichlet(n_iter=a['n_iter']), a)
+    final = dict(n_iter=a['n_iter'])
+    if a.get('constructed'):
+        return _fit(_reparam(Dirichlet(**a['constructed']), a, final), a)
+    return _fit(Dirichlet(**final), a)
 
 
 def refit_same_array(a):
